@@ -188,18 +188,8 @@ func (te *tableEngine) batchAddPlayers(players []JoinPlayer) error {
 	playerRandomSeatIDs := make([]string, 0)
 
 	// validate the whole batch first: a refused batch must not seat anybody
-	if len(te.table.State.PlayerStates)+len(players) > te.table.Meta.TableMaxSeatCount {
-		return ErrTableNoEmptySeats
-	}
-	batchPlayerIDs := make(map[string]bool)
-	for _, p := range players {
-		if p.Seat != seat_manager.UnsetSeatID && (p.Seat < 0 || p.Seat >= te.table.Meta.TableMaxSeatCount) {
-			return ErrTablePlayerSeatUnavailable
-		}
-		if batchPlayerIDs[p.PlayerID] || te.table.FindPlayerIdx(p.PlayerID) != UnsetValue {
-			return ErrTablePlayerInvalidAction
-		}
-		batchPlayerIDs[p.PlayerID] = true
+	if err := te.validateJoinPlayers(players, nil); err != nil {
+		return err
 	}
 
 	for _, p := range players {
@@ -260,6 +250,48 @@ func (te *tableEngine) batchAddPlayers(players []JoinPlayer) error {
 	for _, player := range newPlayers {
 		te.emitTablePlayerStateEvent(player)
 		te.emitTablePlayerReservedEvent(player)
+	}
+
+	return nil
+}
+
+/*
+validateJoinPlayers 檢查一批入桌玩家是否可全部入座 (leavingPlayerIDs 為同一批次即將離桌的玩家)
+  - capacity, seat range, duplicate / already seated players, duplicate / taken seats
+*/
+func (te *tableEngine) validateJoinPlayers(players []JoinPlayer, leavingPlayerIDs []string) error {
+	leaving := make(map[string]bool)
+	for _, playerID := range leavingPlayerIDs {
+		if te.table.FindPlayerIdx(playerID) != UnsetValue {
+			leaving[playerID] = true
+		}
+	}
+
+	if len(te.table.State.PlayerStates)-len(leaving)+len(players) > te.table.Meta.TableMaxSeatCount {
+		return ErrTableNoEmptySeats
+	}
+
+	batchPlayerIDs := make(map[string]bool)
+	batchSeats := make(map[int]bool)
+	for _, p := range players {
+		if batchPlayerIDs[p.PlayerID] {
+			return ErrTablePlayerInvalidAction
+		}
+		if te.table.FindPlayerIdx(p.PlayerID) != UnsetValue && !leaving[p.PlayerID] {
+			return ErrTablePlayerInvalidAction
+		}
+		batchPlayerIDs[p.PlayerID] = true
+
+		if p.Seat == seat_manager.UnsetSeatID {
+			continue
+		}
+		if p.Seat < 0 || p.Seat >= te.table.Meta.TableMaxSeatCount || batchSeats[p.Seat] {
+			return ErrTablePlayerSeatUnavailable
+		}
+		if playerIdx := te.table.State.SeatMap[p.Seat]; playerIdx != UnsetValue && !leaving[te.table.State.PlayerStates[playerIdx].PlayerID] {
+			return ErrTablePlayerSeatUnavailable
+		}
+		batchSeats[p.Seat] = true
 	}
 
 	return nil
